@@ -1218,7 +1218,12 @@ class Signature:
             if composite not in composite_to_name:
                 return
             name = composite_to_name[composite]
-            new_keywords.append(ast.keyword(arg=name, value=arg))
+            param = self.parameters.get(name)
+            if param is not None and param.kind is ParameterKind.POSITIONAL_ONLY:
+                # cannot be passed by name
+                new_args.append(arg)
+            else:
+                new_keywords.append(ast.keyword(arg=name, value=arg))
         new_keywords += node.keywords
         new_node = ast.Call(func=node.func, args=new_args, keywords=new_keywords)
         ctx.visitor.show_error(
